@@ -62,6 +62,23 @@ func CheckTruth(vals ...string) bool {
 	return false
 }
 
+// escapeStringKey escapes the key separator, so that the string values
+// ("a_b", "c") and ("a", "b_c") do not end up with the same key
+func escapeStringKey(s string) string {
+	if !strings.ContainsAny(s, `_\`) {
+		return s
+	}
+
+	var builder strings.Builder
+	for i := 0; i < len(s); i++ {
+		if s[i] == '_' || s[i] == '\\' {
+			builder.WriteByte('\\')
+		}
+		builder.WriteByte(s[i])
+	}
+	return builder.String()
+}
+
 func ToStringKey(values ...interface{}) string {
 	results := make([]string, len(values))
 
@@ -72,9 +89,9 @@ func ToStringKey(values ...interface{}) string {
 
 		switch v := value.(type) {
 		case string:
-			results[idx] = v
+			results[idx] = escapeStringKey(v)
 		case []byte:
-			results[idx] = string(v)
+			results[idx] = escapeStringKey(string(v))
 		case uint:
 			results[idx] = strconv.FormatUint(uint64(v), 10)
 		default:
